@@ -596,6 +596,8 @@ class SeriesOps:
         if fn in ("list", "tuple", "sorted", "set", "frozenset", "reversed"):
             if not pos:
                 return {"list": [], "tuple": PyTuple([]), "set": set(), "frozenset": set(), "sorted": [], "reversed": []}[fn]
+            if fn == "list" and isinstance(a0, list):
+                return list(a0)          # a copy (also of a list whose elements stand for the iterations of a symbolic loop)
             if conc is not None:
                 if fn == "list":
                     return list(conc)
